@@ -187,7 +187,9 @@ impl Scenario for Crash {
         let n = rng.urange(3, tier.pick(6, 10));
         let mut ops = Vec::new();
         for d in 0..ndocs {
-            ops.push(COp::ImportCap { d, write: true });
+            // a quarter of the documents start read-only (a later import of the write capability
+            // is then an upgrade of a durable row, not an insertion)
+            ops.push(COp::ImportCap { d, write: rng.chance(3, 4) });
         }
         // a flushed base so that pruning has something durable to destroy
         for _ in 0..rng.urange(0, 3) {
@@ -312,7 +314,7 @@ fn gen_long(rng: &mut Rng, tier: Tier) -> CrashPlan {
     let n = rng.urange(60, tier.pick(140, 220));
     let mut ops = Vec::new();
     for d in 0..ndocs {
-        ops.push(COp::ImportCap { d, write: true });
+        ops.push(COp::ImportCap { d, write: rng.chance(3, 4) });
     }
     for _ in 0..rng.urange(0, 4) {
         ops.push(COp::Offer { e: gen_ent(rng, &g), path: Path::Remote });
